@@ -100,6 +100,29 @@ static void run_case(const json & c) {
     }
 }
 
+template <std::size_t R, std::size_t K, std::size_t C, typename T>
+static void run_matmul(const json & c) {
+    imat P = c["P"], Q = c["Q"], want = c["PQ"];
+    covfie::array::array<covfie::array::array<T, K>, R> a; covfie::array::array<covfie::array::array<T, C>, K> b;
+    for (std::size_t i = 0; i < R; ++i) for (std::size_t j = 0; j < K; ++j) a[i][j] = (T)P[i][j];
+    for (std::size_t i = 0; i < K; ++i) for (std::size_t j = 0; j < C; ++j) b[i][j] = (T)Q[i][j];
+    ca::matrix<R, K, T> ma(a); ca::matrix<K, C, T> mb(b);
+    auto r = ma * mb;
+    imat got(R, ivec(C));
+    for (std::size_t i = 0; i < R; ++i) for (std::size_t j = 0; j < C; ++j) { T x = r(i, j); got[i][j] = (long)x; if ((T)got[i][j] != x) got[i][j] = 999999999; }
+    expect_eq(std::string("matrix-product/") + std::to_string(R) + "x" + std::to_string(K) + "x" + std::to_string(C) + "/" + tname<T>(), got, want, {{"P", P}, {"Q", Q}});
+}
+template <typename T>
+static void run_matmul_any(const json & c) {
+    auto sh = c["shape"].get<std::vector<int>>();
+    if (sh == std::vector<int>{1, 1, 1}) run_matmul<1, 1, 1, T>(c);
+    else if (sh == std::vector<int>{2, 2, 2}) run_matmul<2, 2, 2, T>(c);
+    else if (sh == std::vector<int>{3, 2, 4}) run_matmul<3, 2, 4, T>(c);
+    else if (sh == std::vector<int>{2, 3, 1}) run_matmul<2, 3, 1, T>(c);
+    else if (sh == std::vector<int>{3, 3, 3}) run_matmul<3, 3, 3, T>(c);
+    else if (sh == std::vector<int>{1, 4, 2}) run_matmul<1, 4, 2, T>(c);
+}
+
 template <std::size_t N, typename T>
 static void trace(rng & r, std::ofstream & o, long n, long & events) {
     auto rmat = [&](long lim) { imat m(N, ivec(N + 1)); for (auto & row : m) for (auto & x : row) x = (long)r.below(2 * lim + 1) - lim; return m; };
@@ -126,6 +149,7 @@ int main(int argc, char ** argv) {
     if (mode == "replay") {
         for (auto & c : read_ndjson(argv[2])) {
             ++g_cases;
+            if (c["kind"] == "matmul") { run_matmul_any<float>(c); run_matmul_any<double>(c); continue; }
             switch (c["n"].get<int>()) {
                 case 1: run_case<1, float>(c); run_case<1, double>(c); break;
                 case 2: run_case<2, float>(c); run_case<2, double>(c); break;
